@@ -525,7 +525,9 @@ pub fn execute(ctx: &Ctx, scv: &serde_json::Value, rd: &RunDir, stats: &mut Stat
                 if rec.commit_mode && (final_xyz(&rec.tag).is_some() || own_prerelease_tag) {
                     let chain = first_parent_chain(&w, h);
                     for old in &records {
-                        if old.commit_mode && old.branch == rec.branch && old.branch.is_some() && old.tag == rec.tag && old.distance < rec.distance && chain.contains(&old.head) {
+                        // (a detached HEAD has no branch name: two detached observations on one chain count as
+                        // the same line of development; flow's id is then derived from the absent name)
+                        if old.commit_mode && old.branch == rec.branch && old.tag == rec.tag && old.distance < rec.distance && chain.contains(&old.head) {
                             for k in 0..2 {
                                 let f = if k == 0 { "semver" } else { "pep440" };
                                 if let (Some(a), Some(b)) = (&old.out[k], &rec.out[k]) {
